@@ -19,6 +19,8 @@ type Config struct {
 	Str func(t *rapid.T, role string) string
 	// PluginSrc generates plugin sources; nil means plug.Gen (documented forms).
 	PluginSrc func(t *rapid.T) string
+	// CacheDisabledKey: mapping-form caches may carry a `disabled:` key (C04 only).
+	CacheDisabledKey bool
 	// UniqueAnchors: never define an anchor name twice (default: one anchor in six reuses a name).
 	UniqueAnchors bool
 	// OddSources: one source in eight is a 3+-segment source holding percent escapes, reserved
@@ -906,8 +908,15 @@ func (g *G) plugins() *yaml.Node {
 	}
 	usedSrc := map[string]bool{}
 	var order []string
+	// separate reports whether the entry being generated is a list item of its own (one mapping per
+	// item, or a bare string): only there may a source repeat an earlier one letter for letter
+	separate := false
 	src := func() (out string) {
 		defer func() { order = append(order, out) }()
+		if separate && g.C.PluginSrc == nil && len(order) > 0 && g.coin("exact-duplicate", 8) {
+			g.feat("plugin-twice-same-spelling")
+			return pick(g, "exactdupof", order)
+		}
 		// the same plugin a second time under its other spelling (short form earlier, canonical form
 		// now): two entries whose keys coincide once sources are written canonically
 		if g.C.PluginSrc == nil && len(order) > 0 && g.coin("respelled-duplicate", 6) {
@@ -951,7 +960,9 @@ func (g *G) plugins() *yaml.Node {
 		cnt := g.intn("np", 1, 4)
 		n = SeqNode(false)
 		for i := 0; i < cnt; i++ {
-			switch g.intn("pitem", 0, 5) {
+			pitem := g.intn("pitem", 0, 5)
+			separate = pitem != 1
+			switch pitem {
 			case 0:
 				g.feat("plugin-bare-string")
 				n.Content = append(n.Content, g.strNode(src()))
@@ -1205,6 +1216,13 @@ func (g *G) cache() *yaml.Node {
 				used[k] = true
 				plan = append(plan, ent{key: k, gen: func() *yaml.Node { return g.typed("cache") }})
 			}
+		}
+		if g.C.CacheDisabledKey && g.coin("disabledkey", 3) {
+			// the mapping form may say `disabled:` itself, next to settings that are still strings of
+			// the pipeline (outside the normal-form checks' grammar, inside C04's "all parsed pipelines")
+			used["disabled"] = true
+			g.feat("cache-map-with-disabled-key")
+			plan = append(plan, ent{key: "disabled", gen: func() *yaml.Node { return Plain(pick(g, "disabledval", []string{"true", "true", "false"})) }})
 		}
 		plan = append(plan, g.extras(used, set("paths", "name", "size", "disabled"), g.intn("cextras", 0, 2))...)
 		n = g.mapping("", g.shuffle(plan))
